@@ -201,10 +201,6 @@ func (c *Conn) readHeaderFrom(r io.Reader) (int, error) {
 	}
 
 	length := int(uint32(header[0]) | uint32(header[1])<<8 | uint32(header[2])<<16)
-	if length == 0 {
-		c.sequence++
-		return 0, nil
-	}
 
 	sequence := uint8(header[3])
 	if sequence != c.sequence {
